@@ -16,10 +16,17 @@ BusyTime(p, S, res) ==
   LET us == UsedOf(S, UsesOfRes(p, res))
   IN  SumF([u \in us |-> S.be[u] - S.bs[u]], us)
 
-\* twice the cost accumulated over [a, b] (exact for constant and linear functions)
+\* C(t) = a_n t^n + ... + a_1 t + a_0 with coefficients <<a_n, ..., a_0>> (docs/resource.md)
+RECURSIVE Pow(_, _)
+Pow(x, n) == IF n = 0 THEN 1 ELSE x * Pow(x, n - 1)
+PolyAt(c, t) == SumF([i \in 1..Len(c) |-> c[i] * Pow(t, Len(c) - i)], 1..Len(c))
+
+\* twice the cost accumulated over [a, b]: exact for constant and linear functions; for a polynomial
+\* the library documents (comment in IndicatorResourceCost) the area of the trapeze between C(a) and C(b)
 Cost2(f, a, b) ==
   CASE f.k = "const" -> 2 * f.c[1] * (b - a)
     [] f.k = "lin"   -> ((f.c[1] * a + f.c[2]) + (f.c[1] * b + f.c[2])) * (b - a)
+    [] f.k = "poly"  -> (PolyAt(f.c, a) + PolyAt(f.c, b)) * (b - a)
 
 Levels(h, lv0, b) == {lv0[b]} \cup { h[b][i][2] : i \in 1..Len(h[b]) }
 
@@ -28,7 +35,8 @@ IndValue(p, S, h, lv0, ind) ==
          LET x == 100 * BusyTime(p, S, ind.res)
          IN  <<FloorDiv(x, p.H), CeilDiv(x, p.H)>>
     [] ind.cls = "IndicatorNumberTasksAssigned" ->
-         LET n == Cardinality(UsedOf(S, UsesOfRes(p, ind.res))) IN <<n, n>>
+         \* tasks, not units: a task holding two units of a cumulative worker counts once
+         LET n == Cardinality({ p.uses[u].task : u \in UsedOf(S, UsesOfRes(p, ind.res)) }) IN <<n, n>>
     [] ind.cls = "IndicatorResourceCost" ->
          LET us == UNION { UsedOf(S, UsesOfRes(p, ind.ress[i])) : i \in 1..Len(ind.ress) }
              c2 == SumF([u \in us |-> Cost2(p.workers[p.uses[u].worker].cost, S.bs[u], S.be[u])], us)
@@ -75,6 +83,12 @@ IndValue(p, S, h, lv0, ind) ==
     [] ind.cls = "GreatestStartTime" ->
          LET ts == SchedOf(S, SeqToSet(ind.tasks))
              v == IF ts = {} THEN 0 ELSE MaxOf({ S.s[t] : t \in ts }) IN <<v, v>>
+    \* ObjectiveMinimizeFlowtimeSingleResource: span between the first start and the last end of the
+    \* resource's busy intervals lying inside the window [lo, hi]; 0 when there is none
+    [] ind.cls = "FlowtimeSingleResource" ->
+         LET us == { u \in UsedOf(S, UsesOfRes(p, ind.res)) : S.bs[u] >= ind.lo /\ S.be[u] <= ind.hi }
+             v == IF us = {} THEN 0 ELSE MaxOf({ S.be[u] : u \in us }) - MinOf({ S.bs[u] : u \in us })
+         IN  <<v, v>>
     [] ind.cls = "Makespan" ->
          LET ts == SchedOf(S, Tasks(p))
              v == IF ts = {} THEN 0 ELSE MaxOf({ S.e[t] : t \in ts }) IN <<v, v>>
@@ -90,6 +104,12 @@ IndConHolds(p, S, h, lv0, c) ==
 
 \* corners the documentation leaves open
 UnspecIndOne(p, S, ind) ==
+  \* "the percentage of the horizon the resource is busy" / "idle time between a resource's tasks" have
+  \* no agreed meaning for a resource that processes several tasks at once
+  (IF ind.cls \in {"IndicatorResourceUtilization", "IndicatorResourceIdle", "FlowtimeSingleResource"}
+      /\ ind.res.t = "cumul"
+   THEN {"time-indicator-of-a-cumulative-worker"} ELSE {})
+  \cup
   (IF ind.cls \in {"IndicatorMaximumLateness", "MinimumStartTime", "GreatestStartTime"}
       /\ \E t \in SeqToSet(ind.tasks) : ~S.sched[t]
    THEN {"extremum-indicator-with-unscheduled-task"} ELSE {})
